@@ -201,6 +201,170 @@ def check_rebind(R, kind, opnd, form, lists, ctxname="where"):
     return fails
 
 
+# ------------------------------------------------------------------------- typed tuples
+# tuple IN over element types with and without bind processors (Integer / String have none on
+# SQLite, DateTime and a value-transforming TypeDecorator have one), in every position order:
+# the expanded parameters `name_i_j` must each get the processor of *their* position.
+class TypedTuples:
+    SHIFT = 1000
+
+    def __init__(self, R):
+        import datetime as dt
+
+        sa = R.sa
+        self.R = R
+        self.sa = sa
+        shift = self.SHIFT
+
+        class Shifted(sa.types.TypeDecorator):
+            impl = sa.Integer
+            cache_ok = True
+
+            def process_bind_param(self, value, dialect):
+                return None if value is None else value + shift
+
+            def process_result_value(self, value, dialect):
+                return None if value is None else value - shift
+
+        self.dts = [dt.datetime(2024, 1, 2, 3, 4, 5), dt.datetime(2023, 12, 31, 23, 59, 59, 250000)]
+        self.types = {"i": sa.Integer(), "s": sa.String(), "d": sa.DateTime(), "x": Shifted()}
+        self.cols = {k: sa.column("t" + k, t) for k, t in self.types.items()}
+        self.pools = {"i": [1, 2, None], "s": ["a", "b", None], "d": self.dts + [None], "x": [1, 2, None]}
+        conn = R.db.conn
+        conn.exec_driver_sql("CREATE TABLE t2 (id INTEGER PRIMARY KEY, ti INTEGER, ts VARCHAR, td DATETIME, tx INTEGER)")
+        rows = []
+        n = 0
+        for i in self.pools["i"]:
+            for s in self.pools["s"]:
+                for d in self.pools["d"]:
+                    for x in self.pools["x"]:
+                        n += 1
+                        rows.append((n, i, s, self.raw("d", d), self.raw("x", x)))
+        conn.exec_driver_sql("INSERT INTO t2 VALUES (?,?,?,?,?)", rows)
+        conn.commit()
+        self.t2 = sa.table("t2", sa.column("id", sa.Integer))
+
+    def raw(self, k, v):
+        """storage value of a Python value of element type k"""
+        if v is None:
+            return None
+        if k == "d":
+            return v.strftime("%Y-%m-%d %H:%M:%S.%f")
+        if k == "x":
+            return v + self.SHIFT
+        return v
+
+    def lit(self, k, v):
+        r = self.raw(k, v)
+        if r is None:
+            return "NULL"
+        if isinstance(r, str):
+            return "'" + r.replace("'", "''") + "'"
+        return str(r)
+
+    def reference(self, shape, rows, positive, where):
+        if not rows:
+            core = "(0)"
+        else:
+            core = "(" + " OR ".join(
+                "(" + " AND ".join("(t%s = %s)" % (k, self.lit(k, v)) for k, v in zip(shape, row)) + ")" for row in rows
+            ) + ")"
+        cond = core if positive else "(NOT %s)" % core
+        q = ("SELECT id FROM t2 WHERE %s ORDER BY id" if where else "SELECT %s FROM t2 ORDER BY id") % cond
+        cur = self.R.db.conn.exec_driver_sql(q)
+        out = [self.R.L.canon(x[0]) for x in cur.cursor.fetchall()]
+        cur.close()
+        return out
+
+    def condition(self, shape, form, bp):
+        sa = self.sa
+        x = sa.tuple_(*[self.cols[k] for k in shape])
+        e = x.in_(bp) if form in ("in", "not-in") else x.not_in(bp)
+        return ~e if form.startswith("not-") else e
+
+    def stmt(self, e, where):
+        sa, t2 = self.sa, self.t2
+        if where:
+            return sa.select(t2.c.id).where(e).order_by(t2.c.id)
+        return sa.select(e.label("r")).select_from(t2).order_by(t2.c.id)
+
+    def shapes(self):
+        ks = "isdx"
+        out = [a + b for a in ks for b in ks if a != b]
+        out += ["isd", "dxi", "xsi", "sdx", "idx", "xdi"]
+        return out
+
+    def rows_for(self, shape, rng, n):
+        return [tuple(rng.choice(self.pools[k]) for k in shape) for _ in range(n)]
+
+    def check(self, shape, rows, form, mode, where):
+        """-> failure tuple or None"""
+        L, sa = self.R.L, self.sa
+        positive = form in ("in", "not-notin")
+        ref = self.reference(shape, rows, positive, where)
+        case = {"kind": "typed-tuple", "shape": shape, "values": [[self.raw_json(k, v) for k, v in zip(shape, r)] for r in rows],
+                "form": form, "mode": mode, "context": "where" if where else "value"}
+        try:
+            if mode == "bound":
+                e = self.condition(shape, form, sa.bindparam("v", expanding=True))
+                got = self.R.db.run_stmt(self.stmt(e, where), {"v": list(rows)})
+            elif mode == "inline":
+                x = sa.tuple_(*[self.cols[k] for k in shape])
+                e = x.in_(list(rows)) if form in ("in", "not-in") else x.not_in(list(rows))
+                e = ~e if form.startswith("not-") else e
+                got = self.R.db.run_stmt(self.stmt(e, where))
+            elif mode == "literal_execute":
+                e = self.condition(shape, form, sa.bindparam("v", expanding=True, literal_execute=True))
+                got = self.R.db.run_stmt(self.stmt(e, where), {"v": list(rows)})
+            else:
+                raise ValueError(mode)
+        except Exception as ex:  # noqa
+            got = "error:%s:%s" % (type(ex).__name__, str(ex)[:80])
+        if L.same_rows(got, ref):
+            return None
+        if isinstance(got, str) and "literal" in mode and ("CompileError" in got or "NotImplementedError" in got):
+            return "skip"
+        key = "c07-typed-tuple-in-mismatch"
+        if not rows and mode == "literal_execute":
+            key = KEY_TUPLE
+        return (key, case, {"got": got if isinstance(got, str) else L.first_diff(got, ref)})
+
+    def raw_json(self, k, v):
+        if v is None:
+            return None
+        if k == "d":
+            return v.isoformat()
+        return v
+
+    def from_json(self, k, v):
+        import datetime as dt
+
+        if v is None:
+            return None
+        if k == "d":
+            return dt.datetime.fromisoformat(v)
+        return v
+
+    def check_rebind(self, shape, form, seq, where):
+        L, sa = self.R.L, self.sa
+        e = self.condition(shape, form, sa.bindparam("v", expanding=True))
+        st = self.stmt(e, where)
+        fails = []
+        for rows in seq:
+            ref = self.reference(shape, rows, form in ("in", "not-notin"), where)
+            try:
+                got = self.R.db.run_stmt(st, {"v": list(rows)})
+            except Exception as ex:  # noqa
+                got = "error:%s" % type(ex).__name__
+            if not L.same_rows(got, ref):
+                fails.append(("c07-typed-tuple-in-mismatch",
+                              {"kind": "typed-tuple", "shape": shape, "form": form, "mode": "rebind", "context": "where" if where else "value",
+                               "sequence": [[[self.raw_json(k, v) for k, v in zip(shape, r)] for r in rows2] for rows2 in seq],
+                               "values": [[self.raw_json(k, v) for k, v in zip(shape, r)] for r in rows]},
+                              {"got": got if isinstance(got, str) else L.first_diff(got, ref)}))
+        return fails
+
+
 def lean_val(v):
     if v is None:
         return "N"
@@ -277,6 +441,31 @@ def run(ctx, deep=False):
                     ctx.count("rebind=" + ("agree" if not fails else "mismatch"))
                     for key, case, detail in fails:
                         ctx.violation(key, case, detail)
+    # ---- 2b. tuples over element types with / without bind processors, every position order
+    TT = TypedTuples(R)
+    for shape in TT.shapes():
+        for nrows in ((0, 1, 2, 3) if big else (0, 1, 2)):
+            for rep in range(3 if big else 1):
+                rows = TT.rows_for(shape, ctx.rng, nrows)
+                for form in FORMS:
+                    for mode in ("bound", "inline", "literal_execute"):
+                        for where in (False, True):
+                            r = TT.check(shape, rows, form, mode, where)
+                            ctx.case(json.dumps(["typed", shape, nrows, rep, form, mode, where]), nontrivial=nrows > 0)
+                            if r is None:
+                                ctx.count("typed-tuple=agree")
+                            elif r == "skip":
+                                ctx.count("typed-tuple=literal-rendering-unsupported")
+                            else:
+                                ctx.count("typed-tuple=" + r[0])
+                                ctx.violation(*r)
+        for form in FORMS:
+            seq = [TT.rows_for(shape, ctx.rng, n_) for n_ in (2, 0, 3, 1, 2)]
+            for where in (False, True):
+                fails = TT.check_rebind(shape, form, seq, where)
+                ctx.count("typed-tuple-rebind=" + ("agree" if not fails else "mismatch"))
+                for f in fails:
+                    ctx.violation(*f)
     cache = getattr(R.db.engine, "_compiled_cache", None)
     ctx.count("compiled-cache-entries", len(cache) if cache is not None else 0)
     # ---- 3. IN nodes inside random boolean trees
@@ -306,7 +495,17 @@ def run(ctx, deep=False):
     orc.close()
     # ---- 4. correspondences
     if ctx.driver_ok():
-        ctx.correspond("corr/c07:render(model text == compiler text, 5 dialects)", cases, impl_out, ctx.driver(reqs))
+        model_out = ctx.driver(reqs)
+        impl_out, ml_fail = L.reconcile_render(ctx, cases, impl_out, model_out, "C07")
+        ctx.correspond("corr/c07:render(model text == compiler text, 5 dialects)", cases, impl_out, model_out)
+        for f in ml_fail[:20]:
+            pres = L.Neutral("ACD")
+            try:
+                L.to_sa(f["case"]["u"], pres)
+            except Exception:  # noqa
+                pass
+            if not pres.hits:
+                ctx.violation("c07-model-level-misgrouping-" + f["case"]["dialect"], f["case"], f["detail"])
         # the Lean three-valued IN against real SQLite
         ecases, ereqs, eimpl = [], [], []
         for pool, xs in (([None, 1, 2], [None, 0, 1, 2]), ([None, "a", "b"], [None, "a", "b", ""])):
@@ -337,6 +536,8 @@ def replay(ctx, obj):
     from harness.props import c01
 
     c = obj["case"]
+    if c.get("mode") == "model-level":
+        return c01.replay_model_level(ctx, obj)
     if c.get("mode") == "tree":
         orc = c01.Oracle()
         try:
@@ -345,6 +546,20 @@ def replay(ctx, obj):
             return r is not None and r[0] not in c01.KEYS.values()
         finally:
             orc.close()
+    if c.get("kind") == "typed-tuple":
+        R = Runner()
+        try:
+            TT = TypedTuples(R)
+            conv = lambda rows: [tuple(TT.from_json(k, v) for k, v in zip(c["shape"], r)) for r in rows]  # noqa
+            if c["mode"] == "rebind":
+                fails = TT.check_rebind(c["shape"], c["form"], [conv(x) for x in c["sequence"]], c["context"] == "where")
+                print("replay C07 typed tuple rebind -> %s" % json.dumps([f[2] for f in fails], default=str)[:400])
+                return bool(fails)
+            r = TT.check(c["shape"], conv(c["values"]), c["form"], c["mode"], c["context"] == "where")
+            print("replay C07 typed tuple %s -> %s" % (json.dumps(c)[:300], json.dumps(r, default=str)[:400]))
+            return r is not None and r != "skip"
+        finally:
+            R.close()
     R = Runner()
     try:
         vals = [tuple(v) for v in c["values"]] if c["kind"].startswith("tuple") else c["values"]
